@@ -22,7 +22,8 @@ Inductive vop :=
 | VAddLin (v : label) (b : Qc) | VSetLin (v : label) (b : Qc)
 | VAddQuad (u v : label) (b : Qc) | VSetQuad (u v : label) (b : Qc)
 | VSetOff (b : Qc) | VScale (k : Qc)
-| VAddEq (terms : list lterm) (lam c : Qc).   (* add_linear_equality_constraint, distinct labels *)
+| VAddEq (terms : list lterm) (lam c : Qc)
+| VRemove (v : label).                        (* remove_variable(v) / remove_variable() = pop of the last variable *)   (* add_linear_equality_constraint, distinct labels *)
 
 (* vartype of the object the edit is issued on: the view shows the converted variables *)
 Definition view_vt (d : dir) : vartype := match d with S2B => BINARY | B2S => SPIN end.
@@ -36,6 +37,7 @@ Definition apply_vop (d : dir) (o : vop) (p : poly) : poly :=
   | VSetOff b => mkPoly b (p_lin p) (p_quad p)
   | VScale k => scale k p
   | VAddEq terms lam c => add_eq_cy (view_vt d) terms lam c p
+  | VRemove v => remove_variable v p
   end.
 
 Inductive case :=
